@@ -285,6 +285,47 @@ func directedScenarios() []directed {
 			g.sweep()
 		}})
 	}
+	// ---- the same global / table / function imported under two indexes (directly and through a re-export)
+	out = append(out, directed{"same-entity-imported-twice", func(g *gen) {
+		e := g.instantiate(exporterSpec("e", 0)).Inst
+		g.instantiate(&ModSpec{Name: "m", ID: 1, Imports: []ImportSpec{impG("e", 0, gt(wenc.I32, true)), impTab("e", wenc.Limits{Min: 1})}})
+		l1 := ImportSpec{Mod: "e", Name: "L1", Ext: Ext{Kind: wenc.ExtFunc, Func: ft(tI32, tI32)}}
+		i := g.instantiate(&ModSpec{Name: "i", ID: 2, Imports: []ImportSpec{
+			impG("e", 0, gt(wenc.I32, true)), l1, impG("e", 0, gt(wenc.I32, true)), impTab("e", wenc.Limits{Min: 1}),
+			impG("e", 2, gt(wenc.I64, true)), impG("m", 0, gt(wenc.I32, true)), impG("e", 2, gt(wenc.I64, true)), l1,
+			{Mod: "m", Name: "t0", Ext: Ext{Kind: wenc.ExtTable, Table: wenc.TableType{Elem: wenc.FuncRef, Lim: wenc.Limits{Min: 1}}}},
+			impG("e", 5, gt(wenc.V128, true)), impG("e", 5, gt(wenc.V128, true))}}).Inst
+		for round := uint64(0); round < 3; round++ {
+			g.call(i, "galias0_1", 50+round)
+			g.call(i, "galias1_0", 60+round)
+			g.call(i, "galias0_3", 70+round) // index 3 is the same global re-exported by m
+			g.call(i, "galias3_0", 80+round)
+			g.call(i, "gget0")
+			g.call(i, "gget1")
+			g.call(i, "gget3")
+			g.call(e, "gget0")
+			g.call(i, "ci0", 5) // e.L1 adds to e.g0
+			g.call(i, "gget1")
+			g.call(i, "cig0", 7) // e.L1 then global.get of the first mutable global, in one function
+			g.call(i, "cig1", 9)
+		}
+		g.call(i, "galias2_4", 0x1111222233334444)
+		g.call(i, "galias4_2", 0x5555)
+		g.call(i, "gget2")
+		g.call(i, "gget4")
+		g.call(i, "galias5_6", 1, 2)
+		g.call(i, "galias6_5", 3, 4)
+		g.call(i, "talias0_1", 1, 0)
+		g.call(i, "talias1_0", 1, 9) // null again
+		g.call(i, "talias0_1", 2, 1)
+		g.call(i, "tgalias0_1", 2)
+		g.call(i, "tgalias1_0", 1)
+		g.call(i, "tgalias0_1", 3) // beyond the maximum
+		g.call(i, "tsize0")
+		g.call(i, "tsize1")
+		g.call(e, "tsize0")
+		g.sweep()
+	}})
 	// ---- segments that are in range only because the exporter has grown
 	out = append(out, directed{"segments-in-grown-region", func(g *gen) {
 		e := g.instantiate(exporterSpec("e", 0)).Inst
